@@ -1,7 +1,5 @@
 import ChythonModel.Proofs.C08Labels
-import ChythonModel.Proofs.C08RoundTrip
-import ChythonModel.Proofs.C08RoundTripB
-import ChythonModel.Proofs.C08Reject
+import ChythonModel.Proofs.C08PrintBuild
 import Mathlib.Data.List.Perm.Basic
 import Mathlib.Tactic.SplitIfs
 /-!
@@ -308,23 +306,18 @@ theorem inner_error_classes :
 
 /-! ## 6. the reader on the documented subset -/
 
-/-- **smarts_roundtrip** (enumerated grid, kernel-evaluated): for each of the 2936 documented bracket atoms of `docGrid` — every
-    element as symbol and as `#n`, `A`, `M`, element lists; every primitive `D h x` with every value 0…14 and every value pair,
-    `z` 1…4, `r` 3…16, `!R`, `a`, `A`, `M`; every charge −4…4 × stereo mark × map × isotope; all combinations of the five
-    primitive families — reading the canonical spelling yields exactly the documented query atom under the documented number. -/
-theorem smarts_roundtrip :
-    ∀ d ∈ docGrid, DocWF d = true ∧
-      smartsModel ('[' :: printDoc d ++ [']']) [] = .ok ⟨[(numberOf d, denote d)], []⟩ := by
-  have hall : docGrid.all roundTrips = true := by
-    show (gridPlain ++ gridSingleFamily ++ gridMetal ++ gridMarks ++ gridCombos).all roundTrips = true
-    rw [List.all_append, List.all_append, List.all_append, List.all_append, rt_plain, rt_metal, rt_marks, rt_combos]
-    simp only [Bool.true_and, Bool.and_true]
-    exact rt_single
-  intro d hd
-  have := List.all_eq_true.mp hall d hd
-  unfold roundTrips at this
-  simp only [Bool.and_eq_true, beq_iff_eq] at this
-  exact this
+/-- **smarts_roundtrip** (general, no bound): for *every* well-formed documented bracket atom `d` — any element symbol or `#n`,
+    element lists of any length, `A`, `M`, any isotope and atom map, any charge −4…4, stereo mark, and value lists of any
+    length for `D h r x z`, `!R`, `a`, `A`, `M` — `smarts('[' + canonical spelling + ']')` returns exactly one atom, numbered as
+    documented, equal to the documented query atom `denote d`.  Proved by following the text through the four regex scanners,
+    the `;`/`,` splitting, Python `int()`, the primitive loop, class resolution over the regenerated tables and the setters. -/
+theorem smarts_roundtrip (d : DocAtom) (h : DocWF d = true) :
+    smartsModel ('[' :: printDoc d ++ [']']) [] = .ok ⟨[(numberOf d, denote d)], []⟩ :=
+  smarts_printDoc d h
+
+/-- the hypothesis is satisfiable: all 2936 atoms of the enumerated grid (every element as symbol and `#n`, every single
+    primitive with every value and value pair, all mark combinations, all family combinations) are well-formed -/
+theorem docGrid_wf : ∀ d ∈ docGrid, DocWF d = true := by decide +kernel
 
 /-- the grid is not trivial: it contains e.g. `[13C@@-2;D1:7]`-like and `[N,#8+;D2,D3;h1,h2;r5,r6;x0,x2;z2,z4;M:12]` atoms -/
 example : docGrid.length = 2936 ∧
@@ -442,14 +435,13 @@ theorem denote_wf (d : DocAtom) (h : DocWF d = true) : QWF (denote d) := by
       simp at this
   cases hh : d.head <;> simp only [] <;> first | exact ring | (right; simp)
 
-/-- **smarts_match_is_documented**: for every documented atom `d` of the grid and **every** atom `a` of any molecule, the query
-    that `smarts()` builds from the canonical spelling of `d` compares equal to `a` exactly when the documented meaning of `d`
-    holds of `a` (composition of `smarts_roundtrip`, `denote_wf` and `eq_is_spec`). -/
-theorem smarts_match_is_documented (d : DocAtom) (hd : d ∈ docGrid) (a : MAtom) (ha : AWF a) :
+/-- **smarts_match_is_documented**: for **every** well-formed documented atom `d` and **every** atom `a` of any molecule, the
+    query that `smarts()` builds from the canonical spelling of `d` compares equal to `a` exactly when the documented meaning of
+    `d` holds of `a` (composition of `smarts_roundtrip`, `denote_wf` and `eq_is_spec`). -/
+theorem smarts_match_is_documented (d : DocAtom) (hd : DocWF d = true) (a : MAtom) (ha : AWF a) :
     ∃ q, smartsModel ('[' :: printDoc d ++ [']']) [] = .ok ⟨[(numberOf d, q)], []⟩ ∧
-      (pyEq q a = true ↔ Matches (denote d) a) := by
-  obtain ⟨hwf, hrt⟩ := smarts_roundtrip d hd
-  exact ⟨denote d, hrt, eq_is_spec (denote d) a (denote_wf d hwf) ha⟩
+      (pyEq q a = true ↔ Matches (denote d) a) :=
+  ⟨denote d, smarts_roundtrip d hd, eq_is_spec (denote d) a (denote_wf d hd) ha⟩
 
 /-- the documented meaning spelled out for the primitives of an element / list / any head (what `Matches (denote d)` says):
     `D` lists the allowed neighbour counts, `h` the hydrogens, `x` the heteroatoms, `z`/`a` the hybridisation,
